@@ -20,7 +20,13 @@ from findings import Report, canon_hash
 def observe(req):
     P, np = drive.pf(), drive.np()
     with contextlib.redirect_stdout(io.StringIO()):
-        FL = P.fluxLimiter(req["name"])
+        FL0 = P.fluxLimiter(req["name"])
+        # the same name is requested again (as a time loop does): the limiter of the SECOND request is the one
+        # evaluated on arrays; a request that fails makes every value non-finite (all clauses fail)
+        try:
+            FL = P.fluxLimiter(req["name"])
+        except Exception:       # noqa: BLE001
+            FL = lambda r: np.full(np.shape(r), np.nan)
     grid = [lift.frac(q) for q in req["grid"]]
     xs = np.array([float(q) for q in grid])
     n = len(xs)
@@ -29,7 +35,7 @@ def observe(req):
     obs = {}
     with warnings.catch_warnings(), np.errstate(all="ignore"):
         warnings.simplefilter("ignore")
-        v0 = np.array([float(FL(np.float64(x))) for x in xs])                  # 0-D, one by one
+        v0 = np.array([float(FL0(np.float64(x))) for x in xs])                 # 0-D, one by one (first request)
         v1 = np.asarray(FL(xs), dtype=float)
         v2 = np.asarray(FL(xs_p.reshape(-1, 4)), dtype=float).ravel()[:n]
         v3 = np.asarray(FL(xs_p.reshape(-1, 2, 3)), dtype=float).ravel()[:n]
